@@ -1242,3 +1242,215 @@ Proof.
   { intros j Hj. assert (j = 0 \/ j = 1) as [-> | ->] by lia; vm_compute; reflexivity. }
   specialize (H Hc ltac:(vm_compute; congruence)). vm_compute in H. exact (H 30 eq_refl eq_refl).
 Qed.
+
+(* ---- MetaGrid.get_affected_level_tiles *)
+Lemma zrange_step_In a b s k : 0 < s -> 0 <= k -> a + s * k <= b -> In (a + s * k) (zrange_step a b s).
+Proof.
+  intros Hs Hk Hb. unfold zrange_step. apply in_map_iff. exists (Z.to_nat k). split; [lia|].
+  apply in_seq. assert (k <= (b - a) / s) by (apply Z.div_le_lower_bound; lia). lia.
+Qed.
+Lemma zrange_step_down_In a b s k : 0 < s -> 0 <= k -> a <= b - s * k -> In (b - s * k) (zrange_step_down a b s).
+Proof.
+  intros Hs Hk Hb. unfold zrange_step_down. apply in_map_iff. exists (Z.to_nat k). split; [lia|].
+  apply in_seq. assert (k <= (b - a) / s) by (apply Z.div_le_lower_bound; lia). lia.
+Qed.
+
+(* anchors: t / m * m is the first tile of the meta tile (column / row block) that contains tile index t *)
+Lemma anchor_between t0 t t1 m :
+  0 < m -> t0 <= t <= t1 ->
+  let a := t / m * m in
+  a <= t < a + m /\ exists k, 0 <= k /\ a = t0 / m * m + m * k /\ exists k', 0 <= k' /\ a = t1 / m * m - m * k'.
+Proof.
+  intros Hm Ht. cbv zeta. split; [lia|].
+  assert (t0 / m <= t / m) by (apply Z.div_le_mono; lia).
+  assert (t / m <= t1 / m) by (apply Z.div_le_mono; lia).
+  exists (t / m - t0 / m). split; [lia|]. split; [lia|]. exists (t1 / m - t / m). split; lia.
+Qed.
+
+Definition in_thin_range (lo hi delta p : Z) : Prop := fst (thin_range lo hi delta) <= p <= snd (thin_range lo hi delta).
+
+Lemma thin_range_ordered lo hi delta : fst (thin_range lo hi delta) <= snd (thin_range lo hi delta).
+Proof. unfold thin_range. destruct (hi - delta <? lo + delta) eqn:E; cbn [fst snd]; lia. Qed.
+
+(* Cover, independently per axis: a point whose x lies in the effective x range of the rectangle (1/10 pixel inset, or
+   the centre when the rectangle is thinner than 2/10 pixel in x) and whose y lies in the effective y range has the
+   meta tile that contains its tile in the list: the call succeeds, and there are a listed column anchor ax and a listed
+   row anchor ay with ax <= tx < ax + mx, ay <= ty < ay + my whose entry (the anchor tile if it is a tile of the grid)
+   is in the list. *)
+Lemma meta_affected_cover g msx msy b l px py :
+  wf g -> valid_level g l = true -> 1 <= msx -> 1 <= msy ->
+  let '(bx0, by0, bx1, by1) := b in
+  in_thin_range bx0 bx1 (inset g l) px -> in_thin_range by0 by1 (inset g l) py ->
+  exists ab n m ts, meta_affected_level_tiles g msx msy b l = Affected ab n m ts /\
+    let '(tx, ty) := tile g px py l in
+    let '(mx, my) := meta_size_at g msx msy l in
+    exists ax ay, ax <= tx < ax + mx /\ ay <= ty < ay + my /\ ax = tx / mx * mx /\ ay = ty / my * my /\
+                  In (limit_tile g ax ay l) ts.
+Proof.
+  intros Hwf Hv Hmx Hmy. destruct b as [[[bx0 by0] bx1] by1]. unfold in_thin_range. intros Hx Hy.
+  unfold meta_affected_level_tiles. fold (inset g l).
+  pose proof (thin_range_ordered bx0 bx1 (inset g l)) as Hox. pose proof (thin_range_ordered by0 by1 (inset g l)) as Hoy.
+  destruct (thin_range bx0 bx1 (inset g l)) as [minx maxx]. destruct (thin_range by0 by1 (inset g l)) as [miny maxy].
+  cbn [fst snd] in *.
+  pose proof (tile_mono_x g minx px miny py l Hwf Hv ltac:(lia)) as Hx1.
+  pose proof (tile_mono_x g px maxx py maxy l Hwf Hv ltac:(lia)) as Hx2.
+  pose proof (tile_mono_y g minx px miny py l Hwf Hv ltac:(lia)) as Hy1.
+  pose proof (tile_mono_y g px maxx py maxy l Hwf Hv ltac:(lia)) as Hy2.
+  destruct (tile g minx miny l) as [tx0 ty0]. destruct (tile g maxx maxy l) as [tx1 ty1].
+  destruct (tile g px py l) as [tx ty]. cbn [fst snd] in *.
+  pose proof (grid_size_cover g l Hwf Hv) as Hgs. unfold meta_size_at.
+  pose proof (tile_or_none_limit g) as Hlim.
+  destruct (grid_size g l) as [nx ny] eqn:Eg. cbv zeta in Hgs. destruct Hgs as (Hnx & Hny & _).
+  set (mx := Z.min msx nx). set (my := Z.min msy ny).
+  assert (Hmx0 : 0 < mx) by (unfold mx; lia). assert (Hmy0 : 0 < my) by (unfold my; lia).
+  destruct (anchor_between tx0 tx tx1 mx Hmx0 ltac:(lia)) as (Hax & kx & Hkx & Eax & _).
+  assert (Hinx : In (tx / mx * mx) (zrange_step (tx0 / mx * mx) (tx1 / mx * mx) mx)).
+  { rewrite Eax. apply zrange_step_In; try lia. rewrite <- Eax.
+    assert (tx / mx <= tx1 / mx) by (apply Z.div_le_mono; lia). nia. }
+  assert (Hiny : In (ty / my * my)
+                    (if ul g then zrange_step (ty1 / my * my) (ty0 / my * my) my
+                     else zrange_step_down (ty0 / my * my) (ty1 / my * my) my)).
+  { destruct (ul g).
+    - destruct (anchor_between ty1 ty ty0 my Hmy0 ltac:(lia)) as (_ & ky & Hky & Eay & _).
+      rewrite Eay. apply zrange_step_In; try lia. rewrite <- Eay.
+      assert (ty / my <= ty0 / my) by (apply Z.div_le_mono; lia). nia.
+    - destruct (anchor_between ty0 ty ty1 my Hmy0 ltac:(lia)) as (_ & _ & _ & _ & ky & Hky & Eay).
+      rewrite Eay. apply zrange_step_down_In; try lia. rewrite <- Eay.
+      assert (ty0 / my <= ty / my) by (apply Z.div_le_mono; lia). nia. }
+  destruct (anchor_between ty ty ty my Hmy0 ltac:(lia)) as (Hay & _).
+  set (xs := zrange_step (tx0 / mx * mx) (tx1 / mx * mx) mx) in *.
+  set (ys := if ul g then zrange_step (ty1 / my * my) (ty0 / my * my) my
+             else zrange_step_down (ty0 / my * my) (ty1 / my * my) my) in *.
+  destruct xs as [|xf xr] eqn:Exs; [contradiction|]. destruct ys as [|yf yr] eqn:Eys; [contradiction|].
+  eexists _, _, _, _. split; [reflexivity|].
+  exists (tx / mx * mx), (ty / my * my). split; [exact Hax|]. split; [exact Hay|]. split; [reflexivity|]. split; [reflexivity|].
+  apply create_tile_list_In. exists (tx / mx * mx), (ty / my * my). split; [exact Hinx|]. split; [exact Hiny|].
+  rewrite <- (Hlim _ _ l Hv). rewrite Eg. reflexivity.
+Qed.
+
+(* ex_grid level 1 (res 50, inset 5, 21 x 26 tiles of 200 x 100), meta size 2 x 2: a strip of width 2 (thinner than 2/10
+   pixel) that is 500 high is reduced to its centre line in x only: three rows of meta tiles *)
+Example ex_meta_thin_strip :
+  meta_affected_level_tiles ex_grid 2 2 (1199, 100, 1201, 600) 1 =
+  Affected (1000, 100, 1400, 700) 1 3 [Some (10, 10, 1); Some (10, 8, 1); Some (10, 6, 1)].
+Proof. vm_compute. reflexivity. Qed.
+
+(* ---- thresholds, one per gap between two levels: closed form *)
+(* threshold t lies between levels j-1 and j *)
+Definition thr_gap (g : grid) (j t : Z) : Prop := 1 <= j < levels g /\ res_at g j <= t < res_at g (j - 1).
+(* the thresholds (descending) lie in distinct gaps at or after level lv, in the order of the levels *)
+Fixpoint gaps_ok (g : grid) (lv : Z) (ds : list Z) : Prop :=
+  match ds with
+  | [] => True
+  | t :: rest => exists j, lv <= j /\ thr_gap g j t /\ gaps_ok g (j + 1) rest
+  end.
+
+Lemma decreasing_le g i j : decreasing_res g -> 0 <= i -> i <= j -> j < levels g -> res_at g j <= res_at g i.
+Proof. intros Hd Hi Hij Hj. destruct (Z.eq_dec i j) as [->|]; [lia|]. pose proof (Hd i j Hi ltac:(lia) Hj). lia. Qed.
+
+Lemma thr_gap_unique g j j' t : decreasing_res g -> thr_gap g j t -> thr_gap g j' t -> j = j'.
+Proof.
+  intros Hd [Hj [H1 H2]] [Hj' [H1' H2']].
+  destruct (Z.lt_trichotomy j j') as [Hlt|[Heq|Hgt]]; [|exact Heq|]; exfalso.
+  - pose proof (decreasing_le g j (j' - 1) Hd ltac:(lia) ltac:(lia) ltac:(lia)). lia.
+  - pose proof (decreasing_le g j' (j - 1) Hd ltac:(lia) ltac:(lia) ltac:(lia)). lia.
+Qed.
+
+Lemma gaps_ok_weaken g : forall ds lv lv', lv' <= lv -> gaps_ok g lv ds -> gaps_ok g lv' ds.
+Proof. intros [|t rest] lv lv' Hl; [trivial|]. intros (j & Hj & Hg & Hr). exists j. split; [lia|]. split; assumption. Qed.
+
+Lemma gaps_ok_In g : forall ds lv x, gaps_ok g lv ds -> In x ds -> exists j, lv <= j /\ thr_gap g j x.
+Proof.
+  induction ds as [|t rest IH]; intros lv x Hg Hin; [contradiction|].
+  destruct Hg as (j & Hj & Hgap & Hr). destruct Hin as [<-|Hin].
+  - exists j. split; assumption.
+  - destruct (IH (j + 1) x Hr Hin) as (j' & Hj' & Hg'). exists j'. split; [lia|exact Hg'].
+Qed.
+
+Lemma thr_pass_one_per_gap g : decreasing_res g -> (forall j, 0 <= j < levels g -> 0 < res_at g j) ->
+  forall n rs lv prev t rest t',
+  res_tail g lv rs -> (n <= length rs)%nat -> 0 <= lv -> lv + Z.of_nat (length rs) = levels g ->
+  (1 <= lv -> prev = res_at g (lv - 1)) ->
+  gaps_ok g lv (t :: rest) -> In t' (t :: rest) -> thr_gap g (lv + Z.of_nat n) t' ->
+  exists ths' prev', thr_pass rs prev (Some t) rest n = (Some t', ths', prev') /\
+                     (1 <= lv + Z.of_nat n -> prev' = res_at g (lv + Z.of_nat n - 1)).
+Proof.
+  intros Hd Hpos. induction n as [|n IH]; intros rs lv prev t rest t' Ht Hn Hlv Hlen Hprev Hg Hin Hgap'.
+  - replace (lv + Z.of_nat 0) with lv in * by lia.
+    assert (t' = t) as ->.
+    { destruct Hin as [<-|Hin]; [reflexivity|]. exfalso. destruct Hg as (j & Hj & Hgap & Hr).
+      destruct (gaps_ok_In g rest (j + 1) t' Hr Hin) as (j' & Hj' & Hg').
+      pose proof (thr_gap_unique g _ _ _ Hd Hgap' Hg'). lia. }
+    exists rest, prev. split; [destruct rs; reflexivity|exact Hprev].
+  - destruct rs as [|r rs']; [cbn [length] in Hn; lia|]. destruct Ht as [-> Ht]. cbn [length] in Hlen.
+    cbn [thr_pass]. destruct Hg as (j & Hj & Hgap & Hr).
+    replace (lv + Z.of_nat (S n)) with (lv + 1 + Z.of_nat n) in * by lia.
+    destruct (Z.eq_dec j lv) as [->|Hne].
+    + (* the current threshold lies between levels lv-1 and lv: it is hit and consumed *)
+      destruct Hgap as [Hj1 [Hg1 Hg2]].
+      assert (Hhit : thr_hit (Some t) prev (res_at g lv) = true).
+      { cbn [thr_hit]. rewrite (Hprev ltac:(lia)). pose proof (Hpos lv ltac:(lia)). lia. }
+      rewrite Hhit.
+      assert (Hin' : In t' rest).
+      { destruct Hin as [<-|Hin]; [|exact Hin]. exfalso.
+        pose proof (thr_gap_unique g _ _ _ Hd Hgap' (conj Hj1 (conj Hg1 Hg2))). lia. }
+      destruct rest as [|t2 rest2]; [contradiction|]. cbn [thr_pop].
+      apply (IH rs' (lv + 1) (res_at g lv) t2 rest2 t' Ht); try lia; try assumption.
+      * cbn [length] in Hn. lia.
+      * intros _. f_equal. lia.
+    + (* its gap comes later: not hit at this level *)
+      assert (Hnh : thr_hit (Some t) prev (res_at g lv) = false).
+      { cbn [thr_hit]. destruct Hgap as [Hj1 [Hg1 Hg2]].
+        pose proof (decreasing_le g lv (j - 1) Hd ltac:(lia) ltac:(lia) ltac:(lia)). lia. }
+      rewrite Hnh.
+      apply (IH rs' (lv + 1) (res_at g lv) t rest t' Ht); try lia; try assumption.
+      * cbn [length] in Hn. lia.
+      * intros _. f_equal. lia.
+      * exists j. split; [lia|]. split; assumption.
+Qed.
+
+(* Closed form for thresholds that lie in distinct gaps between levels (threshold list ascending as in
+   self.threshold_res, so its reverse is descending and the gaps come in level order): a threshold t between levels
+   k-1 and k decides every request between these two levels: r_k <= res < r_(k-1) gets level k-1 when res > t and level
+   k otherwise, whatever the stretch factor and the other thresholds. *)
+Lemma closest_level_thr_one_per_gap g ths t k rn rd :
+  decreasing_res g -> (forall j, 0 <= j < levels g -> 0 < res_at g j) -> 0 < rd ->
+  gaps_ok g 1 (rev ths) -> In t ths -> thr_gap g k t ->
+  res_at g k * rd <= rn < res_at g (k - 1) * rd ->
+  closest_level_thr g ths rn rd = if t * rd <? rn then k - 1 else k.
+Proof.
+  intros Hd Hpos Hrd Hg Hin Hgap [Hr1 Hr2]. pose proof Hgap as [Hk [Hk1 Hk2]].
+  assert (Hc : forall j, 0 <= j < k -> rn < res_at g j * rd).
+  { intros j Hj. pose proof (decreasing_le g j (k - 1) Hd ltac:(lia) ltac:(lia) ltac:(lia)). nia. }
+  pose proof (closest_level_thr_general g ths rn rd k Hrd ltac:(lia) Hc Hr1) as Hgen.
+  apply in_rev in Hin. destruct (rev ths) as [|t1 rest] eqn:Er; [contradiction|].
+  assert (Hinit : thr_init (res_at g 0) (t1 :: rest) = (Some t1, rest)).
+  { cbn [thr_init]. destruct Hg as (j & Hj & [Hj1 [Hg1 Hg2]] & _).
+    pose proof (decreasing_le g 0 (j - 1) Hd ltac:(lia) ltac:(lia) ltac:(lia)).
+    destruct rest as [|t2 rest2]; cbn [thr_skip]; [reflexivity|].
+    replace (res_at g 0 <? t1) with false by (symmetry; lia). reflexivity. }
+  rewrite Hinit in Hgen.
+  destruct (thr_pass_one_per_gap g Hd Hpos (Z.to_nat k) (ress g) 0 (res_at g 0) t1 rest t (res_tail_all g)
+              ltac:(unfold levels in Hk; lia) ltac:(lia) ltac:(unfold levels; lia) ltac:(lia)
+              (gaps_ok_weaken g _ 1 0 ltac:(lia) Hg) Hin ltac:(replace (0 + Z.of_nat (Z.to_nat k)) with k by lia; exact Hgap))
+    as (ths' & prev' & Hp & Hprev').
+  rewrite Hp in Hgen. apply (Hgen t eq_refl).
+  cbn [thr_hit]. rewrite (Hprev' ltac:(lia)). replace (0 + Z.of_nat (Z.to_nat k) - 1) with (k - 1) by lia.
+  pose proof (Hpos k ltac:(lia)). lia.
+Qed.
+
+Lemma ex_grid_pos : forall j, 0 <= j < levels ex_grid -> 0 < res_at ex_grid j.
+Proof.
+  intros j Hj. change (levels ex_grid) with 3 in Hj.
+  assert (j = 0 \/ j = 1 \/ j = 2) as [-> | [-> | ->]] by lia; vm_compute; reflexivity.
+Qed.
+(* thresholds 30 (between levels 1 and 2) and 70 (between levels 0 and 1) on ex_grid: a request of 31 gets level 1 *)
+Example ex_one_per_gap : closest_level_thr ex_grid [30; 70] 31 1 = if 30 * 1 <? 31 then 2 - 1 else 2.
+Proof.
+  apply (closest_level_thr_one_per_gap ex_grid [30; 70] 30 2 31 1 ex_grid_decreasing ex_grid_pos); try lia.
+  - cbn [rev app gaps_ok]. exists 1. split; [lia|]. split; [unfold thr_gap; vm_compute; repeat split; congruence|].
+    exists 2. split; [lia|]. split; [unfold thr_gap; vm_compute; repeat split; congruence|exact I].
+  - left. reflexivity.
+  - unfold thr_gap. vm_compute. repeat split; congruence.
+  - vm_compute. split; congruence.
+Qed.
